@@ -209,6 +209,12 @@ def discover(f, found=None):
         t0 = norm(ov["variants"][0]["fields"][0]["ty"])
         if t0.startswith("cgi::") and t0 in f.adts and f.adts[t0].get("vis") != "pub":
             propose("cgi::VarNameInner", [t0])
+    # the non-public borrowing view / normalising constructor of the owned name, by signature
+    OV = "cgi::OwnedVarName::"
+    propose(OV + "as_var", [p for p, d in fns.items() if p.startswith(OV) and p.count("::") == 2 and restricted(p)
+                            and re.search(r"fn\(&'?\w* ?cgi::OwnedVarName\) -> &'?\w* ?cgi::VarName$", d.get("sig", ""))])
+    propose(OV + "from_compact", [p for p, d in fns.items() if p.startswith(OV) and p.count("::") == 2 and restricted(p)
+                                  and re.search(r"fn\([\w:]*CompactString\) -> cgi::OwnedVarName$", d.get("sig", ""))])
 
     # ---- private fields, by their type within the struct (the rules name them) -----------------------------------
     fren = {}
